@@ -10,6 +10,8 @@ import (
 	"path/filepath"
 	"reflect"
 	"strconv"
+	"strings"
+	"syscall"
 	"testing"
 	"time"
 
@@ -449,4 +451,82 @@ func TestC16EnumWatcher(t *testing.T) {
 	expect("after an invalid rewrite followed by a valid one", next("the third rewrite"), c)
 	ev.Class("watcher:reload-via-file-events")
 	ev.NonTrivial("watcher", cse)
+	// the file is replaced atomically (a new file renamed over the path, as mv, rsync and editors do),
+	// then edited in place: the edit is a change of the file like the ones above
+	staging := filepath.Join(dir, ".staging-1")
+	if err := os.WriteFile(staging, a.YAML(), 0o600); err != nil {
+		t.Fatalf("HARNESS-BUG: %v", err)
+	}
+	if err := os.Rename(staging, path); err != nil {
+		t.Fatalf("HARNESS-BUG: %v", err)
+	}
+	time.Sleep(1500 * time.Millisecond) // let a reload the rename may trigger happen first; it is optional
+	if err := os.WriteFile(path, b.YAML(), 0o600); err != nil {
+		t.Fatalf("HARNESS-BUG: %v", err)
+	}
+	aSnap := func() interface{} {
+		fresh := yamll.New()
+		_ = fresh.Unmarshal(a.YAML())
+		return normJSON(snapshot(<-fresh.Config()))
+	}()
+	deadline := time.After(12 * time.Second)
+	for {
+		select {
+		case v := <-w.Config():
+			if reflect.DeepEqual(normJSON(snapshot(v)), aSnap) {
+				continue // the renamed-in document, published by a reload the rename triggered
+			}
+			expect("after an atomic replace followed by an edit in place", v, b)
+			ev.Class("watcher:reload-after-atomic-replace")
+			return
+		case <-deadline:
+			// Nothing was published.  Whether anything ever can be is read from the process' inotify
+			// state, not from the clock: if no watch covers the file or its directory any more, no
+			// change of the file can reach the watcher.
+			if covered, detail := inotifyCovers(dir, path); !covered {
+				violation(t, "C16", "watcher", "C16:watcher-lost-the-file", cse, "after the file was replaced by rename and then edited in place the watcher published nothing, and no inotify watch of this process covers the file or its directory (%s): documents that remove rights are never loaded again", detail)
+			}
+			t.Fatalf("HARNESS-BUG/INCONCLUSIVE: the watcher published nothing after an edit in place, although the file is still watched")
+		}
+	}
+}
+
+// inotifyCovers: does any inotify instance of this process watch the inode of dir or of path?
+func inotifyCovers(dir, path string) (bool, string) {
+	want := map[uint64]bool{}
+	for _, p := range []string{dir, path} {
+		if fi, err := os.Stat(p); err == nil {
+			if st, ok := fi.Sys().(*syscall.Stat_t); ok {
+				want[st.Ino] = true
+			}
+		}
+	}
+	fds, err := os.ReadDir("/proc/self/fd")
+	if err != nil {
+		return true, "cannot read /proc/self/fd"
+	}
+	seen := 0
+	for _, fd := range fds {
+		if l, _ := os.Readlink("/proc/self/fd/" + fd.Name()); l != "anon_inode:inotify" {
+			continue
+		}
+		info, err := os.ReadFile("/proc/self/fdinfo/" + fd.Name())
+		if err != nil {
+			return true, "cannot read fdinfo"
+		}
+		for _, line := range strings.Split(string(info), "\n") {
+			if !strings.HasPrefix(line, "inotify ") {
+				continue
+			}
+			for _, f := range strings.Fields(line) {
+				if strings.HasPrefix(f, "ino:") {
+					seen++
+					if ino, err := strconv.ParseUint(f[4:], 16, 64); err == nil && want[ino] {
+						return true, ""
+					}
+				}
+			}
+		}
+	}
+	return false, fmt.Sprintf("%d watches, none on the file or its directory", seen)
 }
